@@ -25,7 +25,7 @@ REPO = os.environ.get("VERIF_REPO", "/repo")
 SCRATCH_ROOT = os.environ.get("VERIF_SCRATCH", "/var/tmp")
 RUSTFLAGS = '-A explicit_builtin_cfgs_in_flags --cfg panic="unwind" -Zcrate-attr=feature(allocator_api)'
 KANI_FLAGS = ["-Z", "stubbing", "-Z", "function-contracts", "-Z", "unstable-options"]
-NAMED = re.compile(r'^"?(C\d\d|O|D)_[A-Za-z0-9_]+')
+NAMED = re.compile(r'^"?(C\d\d)_[A-Za-z0-9_]+')
 PEEKS = {
     "src/key.rs": "peek/key.rs",
     "src/mutex.rs": "peek/mutex.rs",
@@ -123,7 +123,7 @@ def harness_names():
             if not fn.endswith(".rs"):
                 continue
             text = open(os.path.join(root, fn)).read()
-            for m in re.finditer(r"^\s*fn\s+((?:c\d\d|o|d|st)_[a-z0-9_]+)\s*\(\s*\)", text, re.M):
+            for m in re.finditer(r"^\s*fn\s+((?:c\d\d|col|sl|dia|probe|st)_[a-z0-9_]+)\s*\(\s*\)", text, re.M):
                 names[m.group(1)] = os.path.relpath(os.path.join(root, fn), hdir)
     return names
 
@@ -149,9 +149,12 @@ def run_kani(crate, harnesses, timeout_s, jobs=16, extra=None):
     if os.path.exists(out_json):
         os.remove(out_json)
     cmd = ["cargo", "kani"] + KANI_FLAGS
+    files = harness_names()
     for h in harnesses:
-        cmd += ["--harness", h]
-    cmd += ["--exact"] if False else []
+        rel = files.get(h)
+        mod = "verif::" + rel[:-3].replace("/", "::") if rel else None
+        cmd += ["--harness", "%s::%s" % (mod, h) if mod else h]
+    cmd += ["--exact"]
     cmd += ["-j", str(jobs), "--output-format", "terse", "--harness-timeout", "%ds" % timeout_s, "--export-json", out_json]
     if extra:
         cmd += extra
@@ -166,7 +169,7 @@ def run_kani(crate, harnesses, timeout_s, jobs=16, extra=None):
     return r, results, wall, " ".join(cmd)
 
 
-def classify(results, wanted, stdout):
+def classify(results, wanted, stdout, prop):
     """Returns (per_harness dict, refuted list, undecided list)."""
     per = {}
     refuted = []
@@ -176,12 +179,12 @@ def classify(results, wanted, stdout):
         return per, refuted, undecided
     solver = {}
     for c in results.get("cbmc", []):
-        st = c.get("cbmc_stats", {})
+        st = c.get("cbmc_stats") or {}
         solver[c["harness_id"]] = {
             "symex_s": st.get("runtime_symex_s"),
             "solver_s": st.get("runtime_decision_procedure_s"),
             "vccs": st.get("vccs_generated"),
-            "solver": c.get("configuration", {}).get("solver"),
+            "solver": (c.get("configuration") or {}).get("solver"),
         }
     for res in results.get("verification_results", {}).get("results", []):
         hid = res["harness_id"]
@@ -216,6 +219,12 @@ def classify(results, wanted, stdout):
                 continue
             info["checks"] += 1
             is_named = bool(NAMED.match(clean))
+            if is_named and prop != "DEV" and not clean.startswith(prop + "_"):
+                # obligation owned by another property (shared harness): not counted here
+                if status == "Failure":
+                    refuted.append({"harness": short, "obligation": clean.split(":")[0], "description": clean, "location": where})
+                info["foreign"] = info.get("foreign", 0) + 1
+                continue
             if is_named:
                 info["named"] += 1
                 if clean.split(":")[0] not in info["named_list"]:
@@ -237,15 +246,14 @@ def classify(results, wanted, stdout):
                     name = clean.split(":")[0] if is_named else "kani_safety(%s)" % clean
                     refuted.append({"harness": short, "obligation": name, "description": clean, "location": where})
             elif status == "Unreachable":
-                if is_named and clean.startswith("C") and "src/verif" in str(loc.get("file")):
-                    undecided.append((short, "named obligation unreachable (vacuous): %s at %s" % (clean, where)))
+                # Kani reach-check on code this harness never executes (generic templates guard some
+                # obligations by the shape, e.g. `if N > 0`).  Not counted as discharged; vacuity of the
+                # harness as a whole is guarded by its cover!() points, which must all be satisfied.
+                if is_named:
+                    info["named"] -= 1
                 else:
-                    # Kani reach-check on code that this harness never executes
-                    if is_named:
-                        info["named"] -= 1
-                    else:
-                        info["safety"] -= 1
-                    info["checks"] -= 1
+                    info["safety"] -= 1
+                info["checks"] -= 1
             else:
                 undecided.append((short, "check %s: %s at %s" % (status, clean, where)))
         if info["checks"] == 0:
@@ -443,12 +451,19 @@ def main():
         if crate and wanted:
             r, results, kani_wall, kani_cmd = run_kani(crate, wanted, timeout_s, jobs=args.jobs)
             stdout_tail = (r.stdout or "")[-8000:]
+            os.makedirs(os.path.join(VERIF, "logs"), exist_ok=True)
+            with open(os.path.join(VERIF, "logs", "%s.%s.log" % (prop, tier)), "w") as lf:
+                lf.write(kani_cmd + "\n==== stdout\n" + (r.stdout or "") + "\n==== stderr\n" + (r.stderr or ""))
             if results is None:
-                errs = [l for l in (r.stderr or "").splitlines() if l.startswith("error")]
+                both = re.sub(r"\x1b\[[0-9;]*m", "", (r.stdout or "") + "\n" + (r.stderr or ""))
+                blocks = re.findall(r"(?ms)^error(?:\[E\d+\])?:.*?(?=^\s*$)", both)
+                for b in blocks[:8]:
+                    log(b.rstrip()[:1500])
+                errs = [l for l in both.splitlines() if l.startswith("error")]
                 undecided.append(("*", "kani produced no results; first errors: %s" % errs[:5]))
                 log((r.stderr or "")[-4000:])
             else:
-                per, refuted, und = classify(results, wanted, r.stdout)
+                per, refuted, und = classify(results, wanted, r.stdout, prop)
                 undecided += und
         elif crate and not wanted:
             undecided.append(("*", "no harness registered for %s/%s" % (prop, tier)))
@@ -462,7 +477,16 @@ def main():
         known = load_known()
         new_viol = []
         known_hits = []
+        own = []
         for it in refuted:
+            tag = it["obligation"][:3]
+            if prop == "DEV" or it["obligation"].startswith("kani_safety") or tag == prop:
+                own.append(it)
+            else:
+                # an obligation owned by another property failed in a shared harness: the paths behind
+                # it are cut, so this property's obligations there are undecided, not refuted
+                undecided.append((it["harness"], "obligation of %s refuted in a shared harness (%s); run ./check %s" % (tag, it["obligation"], tag)))
+        for it in own:
             f = match_known(known, prop, it)
             if f:
                 known_hits.append((f, it))
@@ -527,7 +551,7 @@ def main():
             "functions_inlined": cfg.get("functions_inlined", []),
             "extraction": stats,
             "samples": samples or [{"note": "no harness ran"}],
-            "refuted": refuted[:30],
+            "refuted": own[:30],
             "known_findings_hit": sorted({f["id"] for f, _ in known_hits}),
             "undecided": ["%s: %s" % u for u in undecided[:30]],
             "solver_time_s": round(sum((p["cbmc"].get("solver_s") or 0) for p in per.values()), 2),
